@@ -89,7 +89,8 @@ fn dispatch_inner(prop: &str, ctx: Ctx, replay: Option<&str>) -> i32 {
         }
         "C14" => {
             crate::run::start_watchdog(std::time::Duration::from_secs(ctx.tier.pick(240, 1800)), None);
-            let rep = c14::run(ctx);
+            let mut rep = c14::run(ctx);
+            rep.merge(c14::run_client_level(ctx));
             finish(rep, c14::meta(), ctx.tier, ctx.seed, started)
         }
         "C12" => {
